@@ -23,7 +23,7 @@ if ! go build $MODFLAG -o $BIN ./cmd/vcheck 2> $BIN.err; then
   echo "BUILD-FAILED (the tree does not compile with the checker; no verdict)"; cat $BIN.err; exit 2
 fi
 case "$ID" in
-  C02|C03|C04|C08|C10|C11|C12|C16)
+  C01|C02|C03|C04|C08|C10|C11|C12|C16)
     # main stage, then the write-monitor stage (frame conditions checked in the instrumented build;
     # it merges its coverage into the evidence file the main stage wrote)
     ./$BIN "$ID" "$TIER"; rc1=$?
